@@ -143,7 +143,9 @@ pub fn c16(a: &Args) -> i32 {
             .with_middleware(|req: &Message, next: repe::server::Next<'_>| next.run(req))
             .with_json_blocking("/work", work)
             .with_json("/inline", |v| Ok(json!({"inline": v})))
-            .with_json("/inlinebig", |_v| Ok(json!({"pad": "z".repeat(6 << 20)})));
+            .with_json("/inlinebig", |_v| Ok(json!({"pad": "z".repeat(6 << 20)})))
+            // used from a SECOND connection: not counted by the gauge, returns at once
+            .with_json_blocking("/work2", |v| Ok(json!({"other": v})));
         let listener = rt.block_on(WebSocketServer::listen("127.0.0.1:0")).unwrap();
         let addr = listener.local_addr().unwrap();
         // the per-connection outbound queue is also varied: parked handlers must not pin its capacity
@@ -202,6 +204,14 @@ pub fn c16(a: &Args) -> i32 {
             next_n += 1;
             gates.release(next_n); // should it (wrongly) run, do not leave it parked
             send_work(&mut ws, next_n, "ret", true, &log);
+        }
+        // 2b. the cap is per connection: with this connection saturated, a second connection's off-reader request runs
+        if cap > 0 {
+            let mut ws2 = ws_connect(addr, "/ws");
+            ws_send(&mut ws2, &Message::builder().id(9_000_000 + si as u64).query_str("/work2").body_json(&json!({"x": 1})).unwrap().build());
+            let r = ws_next(&mut ws2, Duration::from_secs(5));
+            log.push(json!({"ev": "other_conn", "ec": r.map(|x| x.1 as i64).unwrap_or(-1)}));
+            let _ = ws2.close(None);
         }
         // 3. the reader is not blocked: an inline request is answered while the handlers are parked
         next_id.set(next_id.get() + 1);
